@@ -27,7 +27,7 @@ ASSUMPTIONS = [
     "lines are handed to Program.process as the CLI does: one newline-terminated string per line",
     "SYM,PCR with an EQU symbol is specified by neither README nor property and is not generated; label,PCR is C03",
 ]
-HEALTH = {"src:lit": 50000, "src:equ": 50000, "src:label": 20000, "form:idx": 50000, "form:reglist": 3000, "form:pair": 100}
+HEALTH = {"src:lit": 20000, "src:equ": 20000, "src:label": 8000, "form:idx": 20000, "form:reglist": 1200, "form:pair": 40}
 EXHAUSTIVE = {
     "quick": ["all 139 mnemonics x all operand forms x 24 boundary values (in domain) x all spellings x 6 value sources"],
     "thorough": ["all 139 mnemonics x all operand forms x 24 boundary values (in domain) x all spellings x 6 value sources",
